@@ -17,5 +17,12 @@ pub mod prelude;
 pub mod sym;
 pub mod targets;
 
+#[cfg(any(feature = "c12", feature = "c13"))]
+pub mod chan;
+
 #[cfg(feature = "c11")]
 pub mod c11;
+#[cfg(feature = "c12")]
+pub mod c12;
+#[cfg(feature = "c13")]
+pub mod c13;
